@@ -1578,6 +1578,16 @@ extern "C" fn on_fatal(sig: i32) {
                     put(d[k], &mut n);
                 }
             }
+            if w_.dtor_log.is_empty() {
+                put(b'-', &mut n);
+            }
+            // the classification flags as they stand now: the call that dies prints no result line
+            for (name, v) in [(&b" disc="[..], w_.disciplined), (&b" d4="[..], w_.d4), (&b" esc="[..], w_.escaped)] {
+                for c in name {
+                    put(*c, &mut n);
+                }
+                put(if v { b'1' } else { b'0' }, &mut n);
+            }
             put(b'\n', &mut n);
             let _ = write(1, buf.as_ptr(), n);
         }
@@ -1595,6 +1605,8 @@ pub fn run_main(args: &[String]) {
     unsafe {
         signal(4, on_fatal as usize); // SIGILL: core::intrinsics::abort
         signal(6, on_fatal as usize); // SIGABRT: std::process::abort, sanitizer reports
+        signal(11, on_fatal as usize); // SIGSEGV / SIGBUS: best effort, same report
+        signal(7, on_fatal as usize);
     }
     // run <skip> <pad> [noquarantine]
     unsafe { crate::NOTE_FREE = note_free };
